@@ -487,8 +487,8 @@ Print Assumptions C01_rsmi_failures.
         a balanced reaction: its_to_rsmi(rsmi_to_its(s)) = s' splits again into exactly two sides r', p' which read back as the
         input graphs with every non-centre hydrogen folded.
         NOT proved: W0 and P1-P4 for the real RDKit (monitored: oracle + kinds rs-split and rs-str); the clause "has the same
-        unmapped reactants and products" of the property has NO theorem (it is a statement about RDKit's canonical writer after
-        removing the maps): oracle clause string-unmapped only. *)
+        unmapped reactants and products" of the property is theorems 61 (graph level, full) and 62 (string level, relative to
+        one more contract on RDKit's canonical writer after removing the maps). *)
 Theorem C01_rsmi_string_roundtrip : forall (rd_read : bool -> String.string -> option rmol)
     (rd_write : bool -> wmol -> option String.string) (ok : mgraph -> Prop),
   (forall w s, rd_write true w = Some s -> has_gt s = false) ->
@@ -898,3 +898,89 @@ Theorem C01_builders_agree : forall (m : rmol) (drop use : bool),
     (forall n, label g' n = option_map Some (label g n)) /\ (forall u v, adj g' u v = adj g u v).
 Proof. exact builders_agree. Qed.
 Print Assumptions C01_builders_agree.
+
+(** ---- round 6: the clause "the string round trip returns a reaction with the SAME UNMAPPED reactants and products" ---- *)
+From SK Require Import proof.C01_UnmappedDefs proof.C01_Unmapped.
+
+(** 61. graph level, FULL strength, no RDKit premise.  For every balanced pair (well formed, same node set, positive orders,
+        atom_map = node id) the two graphs its_to_rsmi hands to the writer are
+        (a) the input graphs with the non-centre hydrogens folded, on element, aromaticity, hydrogen count, charge and every
+            bond - the identity on everything except atom_map;
+        (b) hence the same UNMAPPED molecules as the inputs ([unmapped_eq]: equal as labelled graphs once the atom map is
+            dropped and, as RemoveHs does, every hydrogen hanging on another atom is made implicit - folding in two steps is
+            folding at once, [fold_twice]);
+        (c) with the same fragments: two atoms are connected in the one iff they are connected in the other, so the multiset of
+            unmapped fragment graphs is the same, fragment by fragment on the same atoms *)
+Theorem C01_unmapped_graph : forall G H : mgraph,
+  wf G -> wf H -> same_nodes G H -> orders_pos G -> orders_pos H -> amap_id G -> amap_id H ->
+  let I := its_construct G H in
+  (geq_sel (fst (its_to_graphs I)) (smi_graph G (hlist I)) /\ geq_sel (snd (its_to_graphs I)) (smi_graph H (hlist I))) /\
+  (unmapped_eq (fst (its_to_graphs I)) G /\ unmapped_eq (snd (its_to_graphs I)) H) /\
+  (forall u v, (conn (fold_all (fst (its_to_graphs I))) u v <-> conn (fold_all G) u v) /\
+               (conn (fold_all (snd (its_to_graphs I))) u v <-> conn (fold_all H) u v)).
+Proof. exact unmapped_graph. Qed.
+Print Assumptions C01_unmapped_graph.
+
+(** 62. string level, relative to the written-out contracts on RDKit: W0 and P1-P4 of theorem 32, and
+        CU "the unmapped form [unm] of a side RDKit reads (atom maps removed, RemoveHs, canonical SMILES of the fragments) is a
+            function of the unmapped molecule graph": two sides whose readings are [unmapped_eq] have the same unmapped form
+        (weaker than invariance under graph isomorphism: only readings that agree atom map by atom map are compared).
+        Then for every string s = r>>p whose sides RDKit reads as a balanced reaction, its_to_rsmi(rsmi_to_its(s)) = r'>>p' with
+        unm r' = unm r and unm p' = unm p: the same unmapped reactants and the same unmapped products, side by side.
+        NOT proved: W0, P1-P4, CU for the real RDKit (CU is evaluated on every corpus reaction by kind str-unm, theorem 63). *)
+Theorem C01_unmapped_string : forall (rd_read : bool -> String.string -> option rmol)
+    (rd_write : bool -> wmol -> option String.string) (ok : mgraph -> Prop) (U : Type) (unm : String.string -> U),
+  (forall w s, rd_write true w = Some s -> has_gt s = false) ->
+  ((forall s m, rd_read true s = Some m -> ok (graph_of m)) /\
+   (forall g g', ok g ->
+      ((forall n, option_map sel5 (label g' n) = option_map sel5 (label g n)) /\ (forall u v, adj g' u v = adj g u v)) -> ok g') /\
+   (forall g pres, ok g -> wf g -> ok (implicit_hydrogen g pres)) /\
+   (forall g w s, ok g -> wf g -> amap_id g -> graph_to_wmol g = Some w -> rd_write true w = Some s ->
+      exists m, rd_read true s = Some m /\ (NoDup (map fst (mapped_nodes m)) /\ simple (mapped_bonds m)) /\ geq_sel (graph_of m) g)) ->
+  (forall s s' m m', rd_read true s = Some m -> rd_read true s' = Some m' ->
+     (NoDup (map fst (mapped_nodes m)) /\ simple (mapped_bonds m)) -> (NoDup (map fst (mapped_nodes m')) /\ simple (mapped_bonds m')) ->
+     unmapped_eq (graph_of m') (graph_of m) -> unm s' = unm s) ->
+  forall s r p mr mp, rsmi_parts s = Some (r, p) -> rd_read true r = Some mr -> rd_read true p = Some mp ->
+  (NoDup (map fst (mapped_nodes mr)) /\ simple (mapped_bonds mr)) ->
+  (NoDup (map fst (mapped_nodes mp)) /\ simple (mapped_bonds mp)) ->
+  let G := graph_of mr in let H := graph_of mp in
+  wf G -> wf H -> same_nodes G H -> orders_pos G -> orders_pos H ->
+  forall J s', rsmi_to_its_str rd_read default_ropts s = Ok J -> its_to_rsmi_str rd_write true false false J = Ok s' ->
+  exists r' p' mr' mp', rsmi_parts s' = Some (r', p') /\ rd_read true r' = Some mr' /\ rd_read true p' = Some mp' /\
+    unmapped_eq (graph_of mr') G /\ unmapped_eq (graph_of mp') H /\ unm r' = unm r /\ unm p' = unm p.
+Proof. exact unmapped_string. Qed.
+Print Assumptions C01_unmapped_string.
+
+(** 63. the executable test the correspondence evaluates on the RDKit readings of the input sides and of the sides its_to_rsmi
+        wrote (kind str-unm) is sound for [unmapped_eq] - the hypothesis of contract CU: whenever it is true, CU obliges RDKit to
+        give both sides the same unmapped form, and the implementation side of the same case checks that it does *)
+Theorem C01_unmapped_test_sound :
+  (forall g g' : mgraph, wf g -> wf g' -> geq_selb g g' = true -> geq_sel g g') /\
+  (forall m m' : rmol, (NoDup (map fst (mapped_nodes m)) /\ simple (mapped_bonds m)) ->
+     (NoDup (map fst (mapped_nodes m')) /\ simple (mapped_bonds m')) ->
+     (forall u v o, In (u, v, o) (mapped_bonds m) -> u <> v) -> (forall u v o, In (u, v, o) (mapped_bonds m') -> u <> v) ->
+     unmapped_eqb m m' = true -> unmapped_eq (graph_of m) (graph_of m')).
+Proof. exact (conj geq_selb_sound unmapped_eqb_sound). Qed.
+Print Assumptions C01_unmapped_test_sound.
+
+(** 64. theorem 62 for the writer option its_to_rsmi(its, explicit_hydrogen=True) (SynKit folds nothing; RemoveHs folds when the
+        unmapped form is taken), relative to R1, W0 and CU *)
+Theorem C01_unmapped_string_explicit : forall (rd_read : bool -> String.string -> option rmol)
+    (rd_write : bool -> wmol -> option String.string) (U : Type) (unm : String.string -> U),
+  (forall w s, rd_write true w = Some s -> has_gt s = false) ->
+  (forall s0 m0 g w s, rd_read true s0 = Some m0 -> wf g -> geq_sel g (graph_of m0) -> amap_id g ->
+     graph_to_wmol g = Some w -> rd_write true w = Some s ->
+     exists m, rd_read true s = Some m /\ (NoDup (map fst (mapped_nodes m)) /\ simple (mapped_bonds m)) /\ geq_sel (graph_of m) g) ->
+  (forall s s' m m', rd_read true s = Some m -> rd_read true s' = Some m' ->
+     (NoDup (map fst (mapped_nodes m)) /\ simple (mapped_bonds m)) -> (NoDup (map fst (mapped_nodes m')) /\ simple (mapped_bonds m')) ->
+     unmapped_eq (graph_of m') (graph_of m) -> unm s' = unm s) ->
+  forall s r p mr mp, rsmi_parts s = Some (r, p) -> rd_read true r = Some mr -> rd_read true p = Some mp ->
+  (NoDup (map fst (mapped_nodes mr)) /\ simple (mapped_bonds mr)) ->
+  (NoDup (map fst (mapped_nodes mp)) /\ simple (mapped_bonds mp)) ->
+  let G := graph_of mr in let H := graph_of mp in
+  wf G -> wf H -> same_nodes G H -> orders_pos G -> orders_pos H ->
+  forall J s', rsmi_to_its_str rd_read default_ropts s = Ok J -> its_to_rsmi_str rd_write true true false J = Ok s' ->
+  exists r' p' mr' mp', rsmi_parts s' = Some (r', p') /\ rd_read true r' = Some mr' /\ rd_read true p' = Some mp' /\
+    unmapped_eq (graph_of mr') G /\ unmapped_eq (graph_of mp') H /\ unm r' = unm r /\ unm p' = unm p.
+Proof. exact unmapped_string_explicit. Qed.
+Print Assumptions C01_unmapped_string_explicit.
